@@ -187,7 +187,7 @@ def string_expects(ans, acc=None):
 # small strategies
 
 bools = st.booleans()
-grades = st.sampled_from(PAL + [1, 1, 1, 1.0, 0.5])
+grades = st.sampled_from([1, 1, 1.0, 0.5, 0, 0.1, 1 / 3, 0.7, 0, 1, 0.5, 1])
 msgs = st.one_of(st.just(''), st.integers(0, 40).map(lambda k: 'zqm%d' % k),
                  st.sampled_from(['zqm two\nlines', 'zqm <b>html</b>', 'zqm é中']))
 JUNK = ['', ' ', 'zzz', '0', ',', ';', '()', 'é中文', '١٢٣', 'zqa,', '1 2', '\t', 'x',
@@ -196,7 +196,8 @@ junk = st.one_of(st.sampled_from(JUNK), st.text(max_size=6))
 
 
 def chance(draw, pct):
-    return draw(st.integers(0, 99)) < pct
+    # 0 (the value Hypothesis favours and shrinks to) means 'no'
+    return draw(st.integers(0, 99)) >= 100 - pct
 
 
 def subset(draw, pool, lo, hi):
@@ -279,7 +280,7 @@ class StringLeaf:
 
     def answer(self, draw):
         exp = subset(draw, S_POOL, 1, 4)
-        sentinel = 'zqsx%d' % draw(st.integers(0, 9)) if (not self.plain and chance(draw, 30)) else None
+        sentinel = 'zqsx' + draw(st.sampled_from('abcdefgh')) if (not self.plain and chance(draw, 30)) else None
         ans = alternatives(draw, exp, sentinel)
         variants = []
         for e in exp:
@@ -403,7 +404,8 @@ class FormulaLeaf:
         forms = subset(draw, self.forms, 1, 3)
         exp = [self.expect_value(draw, f) for f in forms]
         ans = alternatives(draw, exp)
-        good = [s for f in forms for s in [f[0]] + f[1]]
+        # the first near miss of a form is the one a partial-credit comparer rewards (one entry off, offset, factor)
+        good = [s for f in forms for s in [f[0]] + f[1] + f[2][:1]]
         near = [s for f in forms for s in f[2]] + [f[0] for f in self.forms]
         return ans, Slot(st.sampled_from(good), st.one_of(st.sampled_from(near), st.sampled_from(self.junk)))
 
@@ -477,6 +479,7 @@ class MatrixLeaf(FormulaLeaf):
             kw['variables'] = ['zqx', 'zqshid']
         if chance(draw, 15):
             kw['max_array_dim'] = 1
+            self.forms = [f for f in M_FORMS if '[[' not in f[0] and 'I' not in f[0]]
         self.samples = draw(st.sampled_from([1, 3, 5, 5]))
         if self.samples != 5:
             kw['samples'] = self.samples
@@ -585,7 +588,7 @@ class SingleListLeaf:
             kw['missing_error'] = self.missing_error
         if chance(draw, 25):
             kw['wrong_msg'] = 'zqw6'
-        if chance(draw, 10):
+        if chance(draw, 5):
             kw['subgrader']['kw']['debug'] = True
         return kw
 
@@ -972,7 +975,7 @@ def student_inputs(draw, case):
         vals = []
         for s in slots:
             c = draw(st.integers(0, 9))
-            if mode < 4:
+            if mode < (4 if case['single'] else 6):
                 vals.append(draw(s.good))
             elif mode < 8:
                 vals.append(draw(s.good) if c < 6 else draw(s.near) if c < 9 else draw(junk))
@@ -992,4 +995,4 @@ def student_inputs(draw, case):
     return vals
 
 
-attempts = st.one_of(st.sampled_from([1, 1, 2, 3]), st.integers(-1, 9), st.sampled_from([50, 1000]))
+attempts = st.one_of(st.sampled_from([1, 1, 2, 1, 3]), st.integers(-1, 9), st.sampled_from([2, 50, 1000]))
